@@ -58,7 +58,6 @@ MUTANTS = [
     {"name": "revert-4907b11-async-generator-asend", "revert": "4907b11", "props": ["C08"]},
     {"name": "revert-b8c7212-private-positional-default", "revert": "b8c7212", "props": ["C08"]},
     {"name": "revert-7930fa6-forward-ref-key-collision", "revert": "7930fa6", "props": ["C17"]},
-    {"name": "c17-function-fields-not-re-resolved", "props": ["C17"], "edits": [{"file": "utype/parser/base.py", "old": "        if resolved:\n            for field in self.fields.values():\n                field.resolve_forward_refs()", "new": "        if resolved and self.cls:\n            for field in self.fields.values():\n                field.resolve_forward_refs()"}]},
     # ---- C01 ------------------------------------------------------------------------------
     {"name": "c01-seq-first-element-unconverted", "props": ["C01"], "edits": [{"file": R, "old": """                try:
                     result.append(
